@@ -362,6 +362,13 @@ def run(ctx):
     from ._treespec import rule_TS
 
     ctx.soft(rule_TS, owners=["tree.Tree"])
+    # the outlier prior terms the density adds up are the data points' (log p, log(1 - p)) x cluster size, computed at
+    # load time (same rule object as C05.E4)
+    from ..formula import imported
+    from . import C05
+
+    ctx._own_rules = set(ctx.rule_min)
+    imported(ctx, C05.rule_E4)
 
 
 _D = "phyclone/tree/distributions.py"
